@@ -1,6 +1,6 @@
 (** Boolean checkers evaluated by checks/c03.py and checks/c12.py on the system-call traces of
     the real rocfl CLI (one traced process per operation). *)
-From Rocfl Require Import Base.Bytes Model.FsOps Generated.Consts Model.Footprint Model.KnownC12 Model.KnownC03.
+From Rocfl Require Import Base.Bytes Model.FsOps Generated.Consts Model.Footprint.
 From Rocfl Require Model.Layout.
 Open Scope N_scope.
 
@@ -44,4 +44,4 @@ Definition check_hashed (hex : bytes) : bool :=
 (** accepted / refused logical paths and content directories *)
 Definition check_lpath (value : bytes) (accepted : bool) : bool :=
   Bool.eqb (match inv_path_parse value with Some _ => true | None => false end) accepted.
-Definition check_cdir (d : bytes) (accepted : bool) : bool := Bool.eqb (validate_content_dir d) accepted.
+Definition check_cdir (d : bytes) (accepted : bool) : bool := Bool.eqb (create_content_dir_ok d) accepted.
